@@ -744,6 +744,230 @@ def arma_persistent_cases(ctx, cases):
         "boundary": "the code's fixed 1200-point inverse FFT aliases by about rho^(1200-k): above rho ~ 0.9886 the unchanged "
                     "code itself is off by more than 1e-6 of gamma_0 (1.6e-4 at rho=127/128); such processes are not generated"}
 
+
+# ----------------------------------------------------------------------------------------------------
+# object histories: ONE instance, re-parameterised through every route, every answer judged against the
+# object's CURRENT parameters; returned arrays are kept and must stay bitwise unchanged and unshared
+
+
+class Kept:
+    """arrays returned earlier by an object: must never change and never share memory with later results"""
+
+    def __init__(self, ctx, key):
+        self.ctx, self.key, self.items = ctx, key, []
+
+    def add(self, label, arr, replay):
+        arr = np.asarray(arr)
+        for lab, old, _b in self.items:
+            if np.shares_memory(old, arr):
+                self.ctx.spec_fail(self.key + "_aliasing", "result of %s shares memory with the earlier result of %s" % (label, lab), replay)
+        self.items.append((label, arr, arr.tobytes()))
+
+    def verify(self, after, replay):
+        for lab, old, b in self.items:
+            if old.tobytes() != b:
+                self.ctx.spec_fail(self.key + "_mutated", "array returned by %s changed after %s" % (lab, after), replay)
+                return
+
+
+def arma_history_cases(ctx, cases):
+    import warnings
+    from quantecon import ARMA
+    GRIDS = [(True, 1200), (True, 8), (False, 8), (True, 16), (False, 4)]
+    for hidx in range(ctx.n(10, 80)):
+        p, q = ctx.rng.randint(1, 3), ctx.rng.randint(0, 3)
+        cur = {"phi": gen_phi(ctx, p), "theta": [F(ctx.rng.randint(-16, 16), 8) for _ in range(q)],
+               "sigma": F(ctx.rng.choice([1, 2, 3]), ctx.rng.choice([1, 2, 4]))}
+        init = dict(cur)
+        arma = ARMA([float(v) for v in cur["phi"]], [float(v) for v in cur["theta"]], float(cur["sigma"]))
+        if hidx == 0:
+            script = ["grid0", "ss", "grid0", "acov", "ss", "acov", "imp", "sp", "grid0", "par", "grid0", "st", "sim", "ss", "sim",
+                      "priv", "grid0", "grid1", "ss", "grid1", "specarr", "ss", "specarr", "imp"]
+        elif hidx == 1:
+            script = ["acov", "ss", "acov", "grid2", "ss", "grid2", "st", "grid2", "ss", "grid2", "sp", "acov"]
+        else:
+            script = [ctx.rng.choice(["grid0", "grid1", "grid2", "grid3", "grid4", "grid0", "grid1", "specarr", "acov", "acov", "imp", "sim",
+                                      "ss", "ss", "ss", "sp", "st", "par", "priv"]) for _ in range(ctx.rng.randint(10, 24))]
+        kept = Kept(ctx, "arma_history")
+        wire, impl, trail = [], [], []
+        last_query_grid_after = {}        # grid -> True when that grid was queried since the last sigma change
+        for step in script:
+            trail.append(step)
+            rep = {"op": "history", "init": {k: ([str(x) for x in v] if isinstance(v, list) else str(v)) for k, v in init.items()},
+                   "history": list(trail), "current": {k: ([str(x) for x in v] if isinstance(v, list) else str(v)) for k, v in cur.items()}}
+            ma = [F(1)] + cur["theta"]
+            ar = [F(1)] + [-v for v in cur["phi"]]
+            if step == "ss":
+                cur["sigma"] = F(ctx.rng.choice([1, 2, 3, 5]), ctx.rng.choice([1, 2, 4, 8]))
+                arma.sigma = float(cur["sigma"])
+                wire.append("ss:%s" % rat(cur["sigma"])); ctx.count("history:sigma-attribute")
+                for g in list(last_query_grid_after):
+                    last_query_grid_after[g] = "stale-if-memoised"
+            elif step == "sp":
+                cur["phi"] = gen_phi(ctx, ctx.rng.randint(1, 3))
+                arma.phi = float(cur["phi"][0]) if (len(cur["phi"]) == 1 and ctx.rng.random() < 0.5) else [float(v) for v in cur["phi"]]
+                wire.append("sp:%s" % rats(cur["phi"])); ctx.count("history:phi-setter")
+            elif step == "st":
+                cur["theta"] = [F(ctx.rng.randint(-16, 16), 8) for _ in range(ctx.rng.randint(0, 3))]
+                arma.theta = [float(v) for v in cur["theta"]]
+                wire.append("st:%s" % rats(cur["theta"])); ctx.count("history:theta-setter")
+            elif step == "par":
+                arma.set_params()
+                wire.append("par"); ctx.count("history:set_params")
+            elif step == "priv":
+                cur["phi"] = gen_phi(ctx, ctx.rng.randint(1, 3))
+                cur["theta"] = [F(ctx.rng.randint(-16, 16), 8) for _ in range(ctx.rng.randint(0, 3))]
+                arma._phi = [float(v) for v in cur["phi"]]
+                arma._theta = [float(v) for v in cur["theta"]]
+                arma.set_params()
+                wire += ["sp:%s" % rats(cur["phi"]), "st:%s" % rats(cur["theta"]), "par"]; ctx.count("history:stored-fields+set_params")
+            elif step == "imp":
+                N = ctx.rng.choice([1, 2, 5, 12])
+                with np.errstate(all="ignore"):
+                    got = arma.impulse_response(N)
+                kept.add("impulse_response", got, rep)
+                ref = psi_exact(cur["phi"], cur["theta"], N)
+                if len(got) != N or any(not close(float(a), b, 1e-9) for a, b in zip(got, ref)):
+                    ctx.spec_fail("arma_history_impulse", "impulse_response after %s is not psi of the current parameters" % trail, rep)
+                wire.append("imp:%d" % N); impl.append(flist(got)); ctx.count("history:query-impulse")
+            elif step.startswith("grid"):
+                two_pi, res = GRIDS[int(step[4:])]
+                if (two_pi, res) == (True, 1200) and ctx.rng.random() < 0.5:
+                    w, sp = arma.spectral_density()
+                else:
+                    w, sp = arma.spectral_density(two_pi=two_pi, res=res)
+                kept.add("spectral_density.w", w, rep); kept.add("spectral_density.spect", sp, rep)
+                if last_query_grid_after.get((two_pi, res)) == "stale-if-memoised":
+                    ctx.count("history:same-grid-requeried-after-sigma-change")
+                last_query_grid_after[(two_pi, res)] = True
+                top = 2 * math.pi if two_pi else math.pi
+                pts = [(0, F(1), F(0)), (res // 4, F(0), F(1)), (res // 2, F(-1), F(0)), (3 * res // 4, F(0), F(-1))] if two_pi \
+                    else [(0, F(1), F(0)), (res // 2, F(0), F(1))]
+                bad = None
+                if len(w) != res or len(sp) != res or any(abs(float(w[k]) - top * k / res) > 1e-12 for k in range(0, res, max(1, res // 8))):
+                    bad = "grid"
+                else:
+                    for k, c, s_ in pts:
+                        refv = spec_exact(ma, ar, cur["sigma"], c, s_)
+                        if abs(F(float(np.real(sp[k]))) - refv) > F(1, 10 ** 9) * refv + F(1, 10 ** 12):
+                            bad = "spect[%d]=%r, sigma^2|theta/phi|^2 with the current parameters=%r" % (k, complex(sp[k]), float(refv))
+                            break
+                    if bad is None:
+                        z = np.exp(-1j * np.asarray(w, float))
+                        hv = np.polyval([float(v) for v in ma][::-1], z) / np.polyval([float(v) for v in ar][::-1], z)
+                        refa = float(cur["sigma"]) ** 2 * np.abs(hv) ** 2
+                        if not np.allclose(np.real(sp), refa, rtol=1e-8, atol=1e-12):
+                            bad = "spectral density on the grid differs from the formula with the current parameters"
+                if bad:
+                    ctx.spec_fail("arma_history_spectral", "spectral_density(two_pi=%s,res=%d) after %s: %s" % (two_pi, res, trail, bad), rep)
+                wire.append("spec:%s:%s" % (rats(c for _k, c, _s in pts), rats(s_ for _k, _c, s_ in pts)))
+                impl.append(flist(float(np.real(sp[k])) for k, _c, _s in pts)); ctx.count("history:query-spectral-grid")
+            elif step == "specarr":
+                cs, ss, ws = [], [], []
+                for _k in range(3):
+                    a, b, hyp = PYTH[_k]
+                    cs.append(F(a, hyp)); ss.append(F(b, hyp)); ws.append(math.atan2(b / hyp, a / hyp))
+                w, sp = arma.spectral_density(res=np.array(ws))
+                kept.add("spectral_density(array).spect", sp, rep)
+                for c, s_, gv in zip(cs, ss, sp):
+                    if not close(float(np.real(gv)), spec_exact(ma, ar, cur["sigma"], c, s_), 1e-9):
+                        ctx.spec_fail("arma_history_spectral", "spectral_density(res=array) after %s does not use the current parameters" % trail, rep)
+                        break
+                wire.append("spec:%s:%s" % (rats(cs), rats(ss))); impl.append(flist(float(np.real(v)) for v in sp))
+                ctx.count("history:query-spectral-array")
+            elif step == "acov":
+                K = ctx.rng.choice([1, 4, 16])
+                with warnings.catch_warnings():
+                    warnings.simplefilter("ignore")
+                    ac = arma.autocovariance(K) if K != 16 or ctx.rng.random() < 0.5 else arma.autocovariance()
+                kept.add("autocovariance", ac, rep)
+                g = acov_exact(cur["phi"], cur["theta"], cur["sigma"], K)
+                if len(ac) != K or any(abs(F(float(a)) - b) > ACOV_TOL * g[0] for a, b in zip(ac, g)):
+                    ctx.spec_fail("arma_history_autocovariance", "autocovariance(%d) after %s is not gamma of the current parameters "
+                                  "(got gamma_0=%r, exact %r)" % (K, trail, float(ac[0]) if len(ac) else None, float(g[0])), rep)
+                wire.append("acov:%d:%d" % (K, 100)); impl.append(flist(float(v) for v in ac)); ctx.count("history:query-autocovariance")
+            elif step == "sim":
+                L = ctx.rng.choice([3, 8])
+                shocks = [F(ctx.rng.randint(-8, 8), 4) for _ in range(L)]
+
+                class RS(np.random.RandomState):
+                    def standard_normal(self, size=None, shocks=shocks):
+                        return np.array([float(v) for v in shocks]).reshape(size)
+                xs = arma.simulation(ts_length=L, random_state=RS(0))
+                kept.add("simulation", xs, rep)
+                pe = psi_exact(cur["phi"], cur["theta"], L)
+                ref = [cur["sigma"] * sum(pe[j] * shocks[t - j] for j in range(t + 1)) for t in range(L)]
+                if len(xs) != L or any(not close(float(a), b, 1e-8, 8) for a, b in zip(xs, ref)):
+                    ctx.spec_fail("arma_history_simulation", "simulation after %s does not use the current parameters" % trail, rep)
+                wire.append("sim:%s" % rats(shocks)); impl.append(flist(float(v) for v in xs)); ctx.count("history:query-simulation")
+            # after every step: polynomials are those of the current parameters, earlier results untouched
+            ma = [F(1)] + cur["theta"]
+            ar = [F(1)] + [-v for v in cur["phi"]]
+            rep = dict(rep, current={k: ([str(x) for x in v] if isinstance(v, list) else str(v)) for k, v in cur.items()})
+            if [F(float(v)) for v in arma.ma_poly] != ma or [F(float(v)) for v in arma.ar_poly][:len(ar)] != ar \
+                    or any(float(v) != 0 for v in arma.ar_poly[len(ar):]):
+                ctx.spec_fail("arma_history_polys", "ma_poly/ar_poly after %s are not (1,theta)/(1,-phi) of the current parameters" % trail, rep)
+            kept.verify(step, rep)
+        if impl:
+            cases.append(Case("C19 history phi=%s theta=%s sigma=%s ops=%s" % (rats(init["phi"]), rats(init["theta"]), rat(init["sigma"]),
+                                                                                ";".join(wire)),
+                              "|".join(impl), cmp=env_cmp(1e-7), tag="history"))
+        ctx.count("history:objects")
+
+
+def other_history_cases(ctx, cases):
+    """ECDF.observations reassigned, BetaBinomial attributes changed after construction"""
+    from quantecon import ECDF
+    from quantecon.distributions import BetaBinomial
+    for _ in range(ctx.n(6, 40)):
+        obs = [F(ctx.rng.randint(-20, 20), 2) for _i in range(ctx.rng.randint(1, 30))]
+        e = ECDF([float(v) for v in obs])
+        kept = Kept(ctx, "ecdf_history")
+        for rnd in range(3):
+            xs = [F(ctx.rng.randint(-48, 48), 4) for _k in range(4)] + [ctx.rng.choice(obs)]
+            got = e(np.array([float(v) for v in xs]))
+            kept.add("ECDF.__call__", got, {"obs": [str(v) for v in obs]})
+            for x, gv in zip(xs, got):
+                ref = F(sum(1 for o in obs if o <= x), len(obs))
+                if F(float(gv)) != F(float(ref)):
+                    ctx.spec_fail("ecdf_history", "after reassigning observations (round %d) ECDF(%s)=%r, fraction is %s" % (rnd, x, float(gv), ref),
+                                  {"op": "ecdf", "obs": [str(v) for v in obs], "x": str(x), "round": rnd})
+            cases.append(Case("C19 ecdf obs=%s x=%s" % (rats(obs), rats(xs)), flist(float(v) for v in got), cmp=env_cmp(2e-16),
+                              nontrivial=(len(set(obs)) >= 2), tag="ecdf-history"))
+            obs = [F(ctx.rng.randint(-20, 20), 2) for _i in range(ctx.rng.randint(1, 30))]
+            e.observations = np.asarray([float(v) for v in obs])
+            kept.verify("observations reassigned", {"obs": [str(v) for v in obs]})
+            ctx.count("history:ecdf-observations-reassigned")
+    for _ in range(ctx.n(6, 40)):
+        n, a, b = ctx.rng.randint(1, 40), F(ctx.rng.randint(1, 160), 16), F(ctx.rng.randint(1, 160), 16)
+        d = BetaBinomial(n, float(a), float(b))
+        kept = Kept(ctx, "bb_history")
+        for rnd in range(3):
+            pdf = d.pdf()
+            kept.add("BetaBinomial.pdf", pdf, {"n": n, "a": str(a), "b": str(b)})
+            mean, var, std, skew = float(d.mean), float(d.var), float(d.std), float(d.skew)
+            ref = [math.comb(n, k) * rising(a, k) * rising(b, n - k) / rising(a + b, n) for k in range(n + 1)]
+            m1 = sum(k * p_ for k, p_ in enumerate(ref))
+            m2 = sum((k - m1) ** 2 * p_ for k, p_ in enumerate(ref))
+            m3 = sum((k - m1) ** 3 * p_ for k, p_ in enumerate(ref))
+            ok = len(pdf) == n + 1 and all(abs(F(float(g_)) - r) <= F(1, 10 ** 8) * r + F(1, 10 ** 300) for g_, r in zip(pdf, ref)) \
+                and close(mean, m1, 1e-12) and close(var, m2, 1e-12) and close(F(std) ** 2, m2, 1e-12) \
+                and close(F(skew) ** 2, m3 * m3 / m2 ** 3, 1e-11) and ((skew > 0) - (skew < 0)) == ((m3 > 0) - (m3 < 0))
+            if not ok:
+                ctx.spec_fail("bb_history", "after changing (n,a,b) (round %d) the moments/pdf are not those of the current parameters" % rnd,
+                              {"op": "bb", "n": n, "a": str(a), "b": str(b), "round": rnd})
+            impl = "%s|%s|%s|%d|%s" % (fnum(mean), fnum(var), fnum(skew * skew), (skew > 0) - (skew < 0), flist(float(v) for v in pdf))
+            cases.append(Case("C19 bb n=%d a=%s b=%s" % (n, rat(a), rat(b)), impl, cmp=env_cmp(1e-9, exact_sections=(3,)), tag="bb-history"))
+            which = ctx.rng.randrange(4)
+            if which in (0, 3):
+                n = ctx.rng.randint(1, 40); d.n = n
+            if which in (1, 3):
+                a = F(ctx.rng.randint(1, 160), 16); d.a = float(a)
+            if which in (2, 3):
+                b = F(ctx.rng.randint(1, 160), 16); d.b = float(b)
+            kept.verify("attributes changed", {"n": n, "a": str(a), "b": str(b)})
+            ctx.count("history:bb-attributes-changed")
+
 # ----------------------------------------------------------------------------------------------------
 # hamilton_filter
 
@@ -993,6 +1217,8 @@ def run(ctx):
     bb_cases(ctx, cases)
     arma_cases(ctx, cases)
     arma_persistent_cases(ctx, cases)
+    arma_history_cases(ctx, cases)
+    other_history_cases(ctx, cases)
     hamilton_cases(ctx, cases)
     spectral_cases(ctx, cases)
     ctx.assumptions.append("FFT, scipy.signal.freqz/dimpulse/dlsim, sqrt, beta/binom of scipy.special are not modelled: the clauses that "
